@@ -60,7 +60,7 @@ def _table_job(st):
             Jl = np.array(prob.compute_totals(of=["failure"], wrt=["vonmises"], return_format="array"))
             _, fresh = run_comp(FailureKS(surface=s, rho=rat(c["rho"])), {"vonmises": arr}, ["failure"], keep=True)
             Jf = np.array(fresh.compute_totals(of=["failure"], wrt=["vonmises"], return_format="array"))
-            if not np.all(np.isfinite(Jl)) or float(np.max(np.abs(Jl - Jf))) > 1e-12 * max(float(np.max(np.abs(Jf))), 1e-300):
+            if not np.all(np.isfinite(Jl)) or not (float(np.max(np.abs(Jl - Jf))) <= 1e-12 * max(float(np.max(np.abs(Jf))), 1e-300)):
                 bad.append("table:ks_history:partials")
             if not np.isfinite(ks):
                 bad.append("table:ks_history:nonfinite")
@@ -70,10 +70,10 @@ def _table_job(st):
         if np.any(args > 0) or not np.any(args == 0):
             bad.append("table:ks_shift_discipline")
         exp = rat(st["fmax"]) + np.log(np.sum(np.exp(args))) / rat(c["rho"])
-        if abs(ks - exp) > 1e-12 * max(1.0, abs(exp)):
+        if not (abs(ks - exp) <= 1e-12 * max(1.0, abs(exp))):
             bad.append("table:FailureKS")
         fe = run_comp(FailureExact(surface=s), {"vonmises": arr}, ["failure"])["failure"]
-        if float(np.max(np.abs(fe[:, 0] - rv(st["f"])))) > 1e-12 * max(1.0, float(np.max(np.abs(rv(st["f"]))))):
+        if not (float(np.max(np.abs(fe[:, 0] - rv(st["f"])))) <= 1e-12 * max(1.0, float(np.max(np.abs(rv(st["f"])))))):
             bad.append("table:FailureExact")
         return {"case": {"kind": c["kind"], "n": n}, "bad": bad}
     d = np.array(c["d"][:3], dtype=float) / c["d"][3]
@@ -97,7 +97,7 @@ def _table_job(st):
     scale = max(float(np.max(vm2)), 1e-30)
     # sqrt near zero amplifies round-off: compare squares, with an absolute floor relative to the stress of a unit strain
     unit = (rat(c["E"]) * 1.0) ** 2
-    if float(np.max(np.abs(vm**2 - vm2))) > 1e-10 * max(scale, 1e-12 * unit) + 1e-20 * unit:
+    if not (float(np.max(np.abs(vm**2 - vm2))) <= 1e-10 * max(scale, 1e-12 * unit) + 1e-20 * unit):
         bad.append("table:%s" % ("VonMisesTube" if c["kind"] == "tube" else "VonMisesWingbox"))
     if np.any(vm < 0):
         bad.append("table:negative_stress")
@@ -141,18 +141,18 @@ def _random_job(k):
     t, w, p0 = rng.normal(0, 1, 3), rng.normal(0, 0.3, 3), rng.normal(0, 5, 3)
     rigid = np.concatenate([t + np.cross(w, nodes - p0), np.tile(w, (ny, 1))], axis=1)
     vr = vm(rigid)
-    if float(np.max(np.abs(vr))) > 1e-9 * unit * 1e3:
+    if not (float(np.max(np.abs(vr))) <= 1e-9 * unit * 1e3):
         bad.append("random:rigid_motion_gives_stress")
     v2 = vm(disp + rigid)
-    if float(np.max(np.abs(v2 - v))) > 1e-8 * float(np.max(v)):
+    if not (float(np.max(np.abs(v2 - v))) <= 1e-8 * float(np.max(v))):
         bad.append("random:rigid_motion_changes_stress")
     lam = float(rng.uniform(0.1, 7))
     vl = vm(lam * disp)
-    if float(np.max(np.abs(vl - lam * v))) > 1e-10 * lam * float(np.max(v)):
+    if not (float(np.max(np.abs(vl - lam * v))) <= 1e-10 * lam * float(np.max(v))):
         bad.append("random:not_homogeneous")
     vn = vm(-disp)
     # sign reversal: the same set of stresses (tension and compression points exchange)
-    if not wing and float(np.max(np.abs(np.sort(vn, axis=1) - np.sort(v, axis=1)))) > 1e-10 * float(np.max(v)):
+    if not wing and not (float(np.max(np.abs(np.sort(vn, axis=1) - np.sort(v, axis=1)))) <= 1e-10 * float(np.max(v))):
         bad.append("random:sign_reversal")
     return {"k": k, "bad": bad, "case": {"ny": ny, "wingbox": wing}}
 
@@ -200,7 +200,7 @@ def _ks_job(k):
         ks = run_comp(FailureKS(surface=s, rho=rho), {"vonmises": vm}, ["failure"])["failure"].item()
     fe = run_comp(FailureExact(surface=s), {"vonmises": vm}, ["failure"])["failure"]
     fmax = float(np.max(vm / sigma - 1))
-    if float(np.max(np.abs(fe - (vm / sigma - 1)))) > 1e-13 * max(1.0, abs(fmax)):
+    if not (float(np.max(np.abs(fe - (vm / sigma - 1)))) <= 1e-13 * max(1.0, abs(fmax))):
         bad.append("ks:exact_failure")
     if not np.isfinite(ks):
         bad.append("ks:nonfinite")
